@@ -8,7 +8,8 @@ each deviation in isolation.
 Conformance: random C programs (render/symasm.c_program) with one TU compiled with -g and one without: external / weak /
 static definitions, default / hidden / protected visibility, alias declarations (also weak, hidden, of static
 definitions), groups of functions with identical bodies; built with gcc (-O0, -O2) and clang as relocatable object,
-shared objects (ld.bfd, ld.lld, ld.lld --icf=all), static executables (also with --icf=all) and PIE.  readelf gives the
+shared objects (ld.bfd, ld.lld, ld.lld --icf=all, gold --icf=all -- gold keeps the DIEs of folded functions valid --), functions of size 0
+(`__builtin_unreachable()` bodies: several DIEs on one address without any folding), static executables (also with --icf=all) and PIE.  readelf gives the
 public defined symbols and their addresses, readelf --debug-dump=info the functions/variables debug info defines; the
 corpus is projected through the public API (harness/corpus_proj); TLC judges every binary against CorpusTrace.tla."""
 import json, os, random
@@ -43,7 +44,7 @@ def main():
         pstem, cstem, (cc, opt, dwarf) = job
         stem = pstem + cstem
         rng = random.Random("%d/%s" % (c.seed, pstem))          # the same program for every configuration
-        prog = symasm.c_program(rng, nfn=rng.randrange(3, 9), nvar=rng.randrange(2, 7))
+        prog = symasm.c_program(rng, nfn=rng.randrange(3, 9), nvar=rng.randrange(2, 7), traps=True)
         wd = os.path.join(c.workdir, "b", pstem, cstem)
         res, errs = symasm.build_c(prog, wd, stem, cc=cc, opt=opt, dwarf=dwarf, fcommon=(rng.random() < 0.3))
         evs, disc = [], []
